@@ -45,6 +45,11 @@ CLAIMS["C03"] = ("beaconnet", "property-based testing (rapid) with harness-owned
     "Sync is disabled and all links are queued, so which partial reaches which node is a generated value; the oracle recomputes, from the network tap, the set of distinct members whose valid partial for exactly (round, prev) reached a node before it stored that round.",
     "Adversary below threshold; scheduling inside a node sampled.", "DESIGN.md §3 C03")
 
+CLAIMS["C05"] = ("beaconnet", "property-based testing (rapid) of generated fault scripts followed by a healed phase; oracle = bounded liveness in fake time + chain scan",
+    "Generated partitions / stops / link loss followed by healing; the harness advances fake clocks in 1 s steps and requires every up node to reach its clock round within a stated fake-time budget, gap-free, then one round per period, "
+    "and restarted nodes to contribute again. Bounded liveness only; a single budget miss is re-run and counted inconclusive.",
+    "Fake-time budget g*c*p/(p-c)+4p; real-time settle heuristics only choose the interleaving.", "DESIGN.md §3 C05")
+
 PENDING_REASON = "check not built yet in this session (planned, see DESIGN.md §3); not claimed until it exists and is silent on the unchanged tree"
 
 
